@@ -134,7 +134,9 @@ func (a *verifJoiner) Do(e *Event) ActionResult {
 		return ActionHold
 	case 1: // continuation
 		if a.held != nil {
-			a.w.dropped[e.Offset] = true
+			if !e.IsChildKind() { // (the children of a split have no offset of their own)
+				a.w.dropped[e.Offset] = true
+			}
 			return ActionCollapse
 		}
 	}
@@ -230,6 +232,10 @@ func VerifH_C01_pipeline() {
 			joinInfo.MatchMode = MatchModeAnd
 		}
 		switch {
+		case vf.Param("split", 0) == 1 && vf.Param("split-join", 0) == 1:
+			// split followed by a multi-line action: the children run through the action that may already hold an event
+			proc.AddActionPlugin(&ActionPluginInfo{ActionPluginStaticInfo: &ActionPluginStaticInfo{PluginStaticInfo: &PluginStaticInfo{Type: "splitter"}}, PluginRuntimeInfo: &PluginRuntimeInfo{Plugin: &verifSplitter{w: w, ctl: proc}}})
+			proc.AddActionPlugin(joinInfo)
 		case vf.Param("split", 0) == 1:
 			proc.AddActionPlugin(&ActionPluginInfo{ActionPluginStaticInfo: &ActionPluginStaticInfo{PluginStaticInfo: &PluginStaticInfo{Type: "splitter"}}, PluginRuntimeInfo: &PluginRuntimeInfo{Plugin: &verifSplitter{w: w, ctl: proc}}})
 			proc.AddActionPlugin(filterInfo)
